@@ -58,6 +58,8 @@ mod h {
     glue_harness!(s_query_4, 4, small2::query, |s, v| Msg { name: s, body: EMPTY0 });
     // contract without interfaces (1 part), unusual names: x1 / k9 (2 bytes), lead / a1_b2 ...
     glue_harness!(n_exec_2_empty, 2, names1::exec, |s, v| Msg { name: s, body: EMPTY0 });
+    glue_harness!(n_exec_3_empty, 3, names1::exec, |s, v| Msg { name: s, body: EMPTY0 });
+    glue_harness!(n_exec_8_empty, 8, names1::exec, |s, v| Msg { name: s, body: EMPTY0 });
     glue_harness!(n_exec_4_empty, 4, names1::exec, |s, v| Msg { name: s, body: EMPTY0 });
     glue_harness!(n_exec_5_x, 5, names1::exec, |s, v| Msg { name: s, body: Obj { keys: ["x"], vals: [num(v[0])] } });
     glue_harness!(n_query_2_empty, 2, names1::query, |s, v| Msg { name: s, body: EMPTY0 });
@@ -155,6 +157,7 @@ mod h {
         };
     }
     self_consistent!(a_nm_exec_2, nm::ExecMsg, 2, nm::execute_messages());
+    self_consistent!(a_nm_exec_3, nm::ExecMsg, 3, nm::execute_messages());
     self_consistent!(a_nm_exec_4, nm::ExecMsg, 4, nm::execute_messages());
     self_consistent!(a_nm_exec_5, nm::ExecMsg, 5, nm::execute_messages());
     self_consistent!(a_nm_exec_6, nm::ExecMsg, 6, nm::execute_messages());
@@ -182,7 +185,7 @@ mod h {
             assert!(accepted::<nm::QueryMsg>(q[i]), "published query name decodes");
             i += 1;
         }
-        assert!(e.len() == 5 && q.len() == 2, "one published name per method");
+        assert!(e.len() == 7 && q.len() == 2, "one published name per method");
         kani::cover!(true);
     }
 
